@@ -1193,6 +1193,75 @@ Proof.
 Qed.
 
 (* ------------------------------------------------------------------ *)
+(* the canonical numeral of a number is unique: print_dec inverts dec_value *)
+
+Lemma dec_value_from_ge s : forall a v, dec_value_from a s = Some v -> a <= v.
+Proof.
+  induction s as [|b r IH]; intros a v H.
+  - injection H as <-. lia.
+  - cbn [dec_value_from] in H. destruct (is_dec_digit b); [|discriminate]. apply IH in H. lia.
+Qed.
+
+Lemma dec_digit_of_ch b : is_dec_digit b = true -> dec_digit (ch b - 48) = b.
+Proof.
+  intro H. apply ch_inj. destruct (dec_digit_facts b H) as (_ & _ & L).
+  rewrite ch_dec_digit by exact L.
+  unfold is_dec_digit in H. apply andb_prop in H. destruct H as [H1 _]. apply N.leb_le in H1. lia.
+Qed.
+
+Lemma canonical_dec_unique s : forall n, canonical_dec s -> dec_value s = Some n -> s = print_dec n.
+Proof.
+  induction s as [|b s' IH] using rev_ind; intros n [Hd Hc] Hv; [contradiction|].
+  rewrite forallb_app in Hd. apply andb_prop in Hd. destruct Hd as [Hd' Hb].
+  cbn [forallb] in Hb. rewrite andb_true_r in Hb.
+  assert (Hv' : dec_value_from 0 (s' ++ [b]) = Some n).
+  { unfold dec_value in Hv. destruct (s' ++ [b]) eqn:E; [|exact Hv].
+    apply app_eq_nil in E. destruct E as [_ E]. discriminate E. }
+  rewrite dec_value_from_app in Hv'.
+  destruct (dec_digit_facts b Hb) as (_ & _ & Ld).
+  destruct s' as [|x r'].
+  - cbn [dec_value_from] in Hv'. rewrite Hb in Hv'. injection Hv' as <-.
+    replace (10 * 0 + (ch b - 48)) with (ch b - 48) by lia.
+    rewrite print_dec_small by exact Ld. rewrite dec_digit_of_ch by exact Hb. reflexivity.
+  - assert (Hx : ch x <> 48).
+    { intro E. cbn [app] in Hc. specialize (Hc E). apply app_eq_nil in Hc.
+      destruct Hc as [_ Hc]. discriminate Hc. }
+    destruct (dec_value_from 0 (x :: r')) as [v'|] eqn:Ev; [|discriminate].
+    cbn [dec_value_from] in Hv'. rewrite Hb in Hv'. injection Hv' as <-.
+    assert (Hv1 : 1 <= v').
+    { cbn [dec_value_from] in Ev. cbn [forallb] in Hd'. apply andb_prop in Hd'.
+      destruct Hd' as [Hxd _]. rewrite Hxd in Ev. apply dec_value_from_ge in Ev.
+      unfold is_dec_digit in Hxd. apply andb_prop in Hxd. destruct Hxd as [H1 _].
+      apply N.leb_le in H1. lia. }
+    rewrite print_dec_big by lia.
+    replace ((10 * v' + (ch b - 48)) / 10) with v' by lia.
+    replace ((10 * v' + (ch b - 48)) mod 10) with (ch b - 48) by lia.
+    rewrite dec_digit_of_ch by exact Hb. f_equal.
+    apply IH; [|exact Ev].
+    split; [exact Hd'|]. intro E. contradiction.
+Qed.
+
+(* ------------------------------------------------------------------ *)
+(* statements in the shape used by Props/C19.v                          *)
+
+Lemma canonical_dec_def s :
+  canonical_dec s <->
+  exists b r, s = b :: r /\ forallb is_dec_digit s = true /\ (ch b = 48 -> r = []).
+Proof.
+  unfold canonical_dec. split.
+  - intros [H1 H2]. destruct s as [|b r]; [contradiction|]. exists b, r. tauto.
+  - intros (b & r & -> & H1 & H2). tauto.
+Qed.
+
+Lemma uint_json_bound s w n : uint_unmarshal_json s w = COk n -> n < 2 ^ w.
+Proof.
+  unfold uint_unmarshal_json. destruct (strip_quotes s); try discriminate. apply parse_uint_bound.
+Qed.
+
+Lemma parse_uint_bound_w w s n : In w [8; 16; 32; 64] -> parse_uint s w = COk n -> n < 2 ^ w.
+Proof. intros _. apply parse_uint_bound. Qed.
+
+(* ------------------------------------------------------------------ *)
 (* Examples: the hypotheses of the implication-style theorems are satisfiable, and the
    boundary behaviour on concrete inputs                                *)
 
@@ -1266,3 +1335,24 @@ Example ex_hex :
   fixed_bytes_unmarshal 2 (txt "0xab0g") = None /\
   fixed_bytes_unmarshal 0 (txt "0x") = Some [] /\ fixed_bytes_unmarshal 0 (txt "") = Some [].
 Proof. repeat split; vm_compute; reflexivity. Qed.
+
+Example ex_u256_exact :
+  has_underscore (txt "0x10") = false /\ denote_uint (txt "0x10") = Some 16 /\
+  u256_unmarshal_text (txt "0x10") = COk 16.
+Proof. repeat split; vm_compute; reflexivity. Qed.
+
+Example ex_hex_decode :
+  hex_decode (txt "aB01") = Some [byte_of_N 171; byte_of_N 1] /\
+  hex_encode [byte_of_N 171; byte_of_N 1] = map to_lower_hex (txt "aB01") /\
+  Nat.even (List.length (txt "ab0")) = false /\ hex_decode (txt "ab0") = None /\
+  In (byte_of_N 103) (txt "ab0g") /\ is_hex_digit (byte_of_N 103) = false /\
+  hex_decode (txt "ab0g") = None.
+Proof. repeat split; try (vm_compute; reflexivity). vm_compute. tauto. Qed.
+
+Example ex_canonical_unique :
+  canonical_dec (txt "4294967296") /\ dec_value (txt "4294967296") = Some 4294967296 /\
+  print_dec 4294967296 = txt "4294967296".
+Proof.
+  split; [unfold canonical_dec; vm_compute; split; [reflexivity|intro H; discriminate H]|].
+  split; vm_compute; reflexivity.
+Qed.
